@@ -32,7 +32,24 @@ type Mode int
 const (
 	Full    Mode = iota // every compound operand parenthesised
 	Minimal             // only what the precedence table requires
+	// FullTargets is Full and, in addition, member and index expressions that are the target
+	// of an assignment or of ++ / -- are parenthesised ((o.a) = 5, (a[0])++), except where
+	// the target is the first thing of a statement (a line must not start with a parenthesis)
+	FullTargets
 )
+
+func (rr *renderer) full() bool { return rr.mode == Full || rr.mode == FullTargets }
+
+// target renders the target of an assignment or of ++ / --.
+func (rr *renderer) target(n *Node, atStart bool) {
+	if rr.mode == FullTargets && !atStart && (n.K == "mem" || n.K == "idx") {
+		rr.p("(")
+		rr.expr(n, 7)
+		rr.p(")")
+		return
+	}
+	rr.base(n)
+}
 
 type Rendering struct {
 	Toks  []Tok
@@ -41,7 +58,8 @@ type Rendering struct {
 }
 
 type renderer struct {
-	mode Mode
+	mode      Mode
+	stmtStart bool // the expression being rendered starts a statement (cleared at the first token)
 	r    *Rendering
 }
 
@@ -61,6 +79,7 @@ func Render(n *Node, mode Mode) *Rendering {
 
 func (rr *renderer) emit(kind TK, text string) {
 	rr.r.Toks = append(rr.r.Toks, Tok{Text: text, Kind: kind})
+	rr.stmtStart = false
 }
 func (rr *renderer) p(text string) { rr.emit(TPunct, text) }
 func (rr *renderer) w(text string) { rr.emit(TWord, text) }
@@ -117,7 +136,7 @@ func BinLevel(op string) int {
 // least level req.
 func (rr *renderer) operand(n *Node, req int) {
 	need := Level(n) < req
-	if rr.mode == Full && Level(n) < 7 {
+	if rr.full() && Level(n) < 7 {
 		need = true
 	}
 	if need {
@@ -132,7 +151,7 @@ func (rr *renderer) operand(n *Node, req int) {
 // base renders the base of a postfix operator (member, index, call).
 func (rr *renderer) base(n *Node) {
 	// (a numeric literal needs no parentheses: it never absorbs the member operator)
-	if (n.K == "num" && rr.mode == Full) || n.K == "match" || n.K == "regex" || Level(n) < 7 {
+	if (n.K == "num" && rr.full()) || n.K == "match" || n.K == "regex" || Level(n) < 7 {
 		rr.p("(")
 		rr.expr(n, 0)
 		rr.p(")")
@@ -196,9 +215,9 @@ func (rr *renderer) expr(n *Node, req int) {
 		rr.operand(n.C[0], 6)
 	case "pre":
 		rr.p(string(n.S))
-		rr.base(n.C[0])
+		rr.target(n.C[0], false)
 	case "post":
-		rr.base(n.C[0])
+		rr.target(n.C[0], rr.stmtStart)
 		rr.p(string(n.S))
 	case "bin":
 		l := BinLevel(string(n.S))
@@ -210,10 +229,14 @@ func (rr *renderer) expr(n *Node, req int) {
 		rr.w("is")
 		rr.w(string(n.S))
 	case "asg":
-		rr.expr(n.C[0], 7)
+		if rr.mode == FullTargets && !rr.stmtStart && (n.C[0].K == "mem" || n.C[0].K == "idx") {
+			rr.target(n.C[0], false)
+		} else {
+			rr.expr(n.C[0], 7)
+		}
 		rr.p(string(n.S))
 		v := n.C[1]
-		if rr.mode == Full && Level(v) < 7 && v.K != "asg" {
+		if rr.full() && Level(v) < 7 && v.K != "asg" {
 			rr.p("(")
 			rr.expr(v, 0)
 			rr.p(")")
@@ -290,7 +313,9 @@ func (rr *renderer) stmt(n *Node) {
 			rr.expr(a, 0)
 		}
 	case "expr":
+		rr.stmtStart = true
 		rr.expr(n.C[0], 0)
+		rr.stmtStart = false
 	case "return":
 		rr.w("return")
 		rr.lastTok().NoNLAfter = true
